@@ -26,5 +26,5 @@ DELIVERABLES (create the directory {wt}/SEED/):
   * {wt}/SEED/patch.diff  - output of `git diff` for your change to behave/ (only package source files)
   * {wt}/SEED/demo.py     - a small self-contained program (run as: cd {wt} && /venv/bin/python SEED/demo.py) using behave's public API or command line that exits 0 on the ORIGINAL code and exits non-zero (with a short message saying what went wrong) WITH your change. It should demonstrate the property violation at the level of observable behaviour (statuses, verdict/exit code, reports, selected scenarios, ...).
   * {wt}/SEED/notes.md    - 5-10 lines: what you changed, why it breaks the property, and exactly what is needed for it to manifest.
-Verify yourself: demo passes with `git stash` (original) and fails with the change applied; suite results identical. Leave the change APPLIED in the worktree when you finish.
+IMPORTANT: never use `git stash` (the stash is shared between worktrees of other people working in parallel and gets mixed up); to test the original code use `git diff > SEED/patch.diff && git apply -R SEED/patch.diff`, and `git apply SEED/patch.diff` to re-apply. Verify yourself: demo passes on the original code and fails with the change applied; suite results identical. Leave the change APPLIED in the worktree when you finish.
 In your final answer, report: the one-paragraph description, what it needs to manifest, and the test-suite tail before/after.""")
